@@ -15,7 +15,7 @@ import (
 func init() {
 	register(&Check{
 		ID: "C20", Level: "exploration", Primary: "histories", EvalCount: "steps",
-		Rule: "histories of up to 40 operations over a pool of 8 user DNs (cn=u<a..h>,ou=people,...) and 4 group DNs (cn=g<a..d>,ou=groups,...) with fixed-width names (no DN is a substring of another), issued by " +
+		Rule: "histories of up to 40 operations (every sixth one begins by setting the users to none, adding 5..9 of them one by one and deleting them again, in another order, down to the last) over a pool of 8 user DNs (cn=u<a..h>,ou=people,...) and 4 group DNs (cn=g<a..d>,ou=groups,...) with fixed-width names (no DN is a substring of another), issued by " +
 			"1..3 clients strictly one operation at a time: Add (0..4 attributes, 1..3 values), Modify of user entries (add-value on new and existing attributes, delete-attribute - bare, or spelling out all the values the attribute has -, replace of an existing attribute, several " +
 			"changes per request - now and then none at all -, multi-valued), Add and Delete of 4 further DNs below the groups base (cn=h<a..d>,ou=groups,..., read back by a search based at the entry's own DN), values of 127..70000 bytes now and then, Delete (users and groups, present and missing), Search (people base with (cn=X); base = entry DN; groups base), SetUsers/SetGroups (model reset with fresh objects, or with entries built by the library's own NewUsers(WithMembersOf) helper, which shares one memberOf slice between all users), and searches with unusual parameters (typesOnly, limits, attribute lists) whose results are not asserted but which must not change the store. " +
 			"A reference model (DN -> attribute -> values) is stepped alongside; after every mutating step the affected entry and one other pool entry are searched and compared, and at the end of each history every pool DN. " +
@@ -24,7 +24,7 @@ func init() {
 		Phases: func(tier string, seed int64) []Phase {
 			return []Phase{{Name: "histories-plain", Run: func(c *Ctx) { c20Run(c, "plain") }}, {Name: "histories-tls", Run: func(c *Ctx) { c20Run(c, "tls") }}}
 		},
-		MinObserved: []string{"steps", "searches_compared", "op/add", "op/modify", "op/delete", "op/set", "searches_with_odd_parameters", "searches_based_at_a_dn_below_the_groups_base", "searches_for_dns_with_parentheses", "setusers_with_the_same_objects_again", "histories_steps_with_token_groups_configured", "modifies_without_changes_of_a_missing_entry", "delete_attribute_changes_that_list_all_the_values"},
+		MinObserved: []string{"steps", "searches_compared", "op/add", "op/modify", "op/delete", "op/set", "searches_with_odd_parameters", "searches_based_at_a_dn_below_the_groups_base", "searches_for_dns_with_parentheses", "setusers_with_the_same_objects_again", "histories_steps_with_token_groups_configured", "modifies_without_changes_of_a_missing_entry", "delete_attribute_changes_that_list_all_the_values", "fill_and_drain_histories"},
 	})
 }
 
@@ -373,14 +373,42 @@ func c20History(c *Ctx, td interface {
 	steps := 5 + r.Intn(36)
 	mutated := false
 	var kinds []string
+	// every sixth history begins as a fill-and-drain: the users are set to none, 5..9 pool users are added one after the
+	// other and then deleted again, in another order, down to the last one (every step verified like any other)
+	type planned struct {
+		op int
+		dn string
+	}
+	var plan []planned
+	if h%6 == 3 {
+		td.SetUsers()
+		model.Users = map[string]*c20Entry{}
+		lastSet, lastSetObjs = nil, nil
+		n := 5 + r.Intn(5)
+		for _, i := range r.Perm(c20NUsers)[:n] {
+			plan = append(plan, planned{0, c20UserDN(i)})
+		}
+		for _, j := range r.Perm(n)[:n-1] {
+			plan = append(plan, planned{6, plan[j].dn})
+		}
+		steps = len(plan) + r.Intn(6)
+		c.Count("fill_and_drain_histories", 1)
+	}
 	for s := 0; s < steps; s++ {
 		k := clients[r.Intn(len(clients))]
 		c.Count("steps", 1)
-		switch r.Intn(10) {
+		opc, forcedDN := r.Intn(10), ""
+		if s < len(plan) {
+			opc, forcedDN = plan[s].op, plan[s].dn
+		}
+		switch opc {
 		case 0, 1, 2: // add
 			dn := c20UserDN(r.Intn(c20NUsers))
 			if r.Chance(20) {
 				dn = c20HDN(r.Intn(4)) // an entry below the groups base, created by an Add request
+			}
+			if forcedDN != "" {
+				dn = forcedDN
 			}
 			var attrs []sber.Attr
 			ma := map[string][]string{}
@@ -514,6 +542,9 @@ func c20History(c *Ctx, td interface {
 				dn = c20HDN(r.Intn(4))
 			} else {
 				dn = c20UserDN(r.Intn(c20NUsers))
+			}
+			if forcedDN != "" {
+				dn, isGroup = forcedDN, false
 			}
 			trace = append(trace, "delete "+dn)
 			kinds = append(kinds, "D")
